@@ -26,6 +26,7 @@ MCInit ==
 Keep == UNCHANGED <<nApp, nTog>>
 
 MCAppBegin == nApp < MaxApp /\ AppBegin /\ nApp' = nApp + 1 /\ UNCHANGED nTog /\ Step([a |-> "AppBegin"])
+MCAppSet == nApp < MaxApp /\ DoAppSet /\ nApp' = nApp + 1 /\ UNCHANGED nTog /\ Step([a |-> "AppSet"])
 MCAppStep == (AppSplit \/ AppList \/ AppNoSplit \/ AppWrite) /\ Keep /\ Step([a |-> "Step", p |-> "app"])
 MCRolBegin == UseRoller /\ RolSplit /\ Keep /\ Step([a |-> "RolBegin"])
 MCRolStep == RolList /\ Keep /\ Step([a |-> "Step", p |-> "rol"])
@@ -40,7 +41,7 @@ MCNewReader(r, s) == /\ (r = "r2" => rd["r1"].pc # "none")
 MCRStep(r) == RNext(r) /\ Keep /\ Step([a |-> "Step", p |-> r])
 
 MCNext ==
-  \/ MCAppBegin \/ MCAppStep \/ MCRolBegin \/ MCRolStep
+  \/ MCAppBegin \/ MCAppStep \/ MCAppSet \/ MCRolBegin \/ MCRolStep
   \/ \E h \in 0..Newest : MCSetHW(h)          \* any step; a stale (lower) value is a no-op
   \/ \E h1, h2 \in 0..Newest : h1 # h2 /\ (h1 > hw \/ h2 > hw) /\ MCSetHW2(h1, h2)   \* two HW writers at once
   \/ \E b \in BOOLEAN : MCTogBegin(b)
